@@ -16,8 +16,13 @@ import time
 
 ROOT = '/verif'
 COQ = os.path.join(ROOT, 'coq')
-WORK = os.path.join(ROOT, 'work')
-HARNESS = os.path.join(ROOT, 'harness')
+ALT = 'VERIF_REPO' in os.environ
+OUT_ROOT = (os.environ['VERIF_REPO'] + '-out') if ALT else ROOT     # evidence / replay of alt runs never touch /verif
+WORK = os.path.join(OUT_ROOT, 'work')
+# VERIF_REPO / VERIF_HARNESS let tools/altrepo.sh run the checks against a patched COPY of the repository
+# (seeded-mutant evaluation) without touching /repo; the registered commands never set them.
+REPO = os.environ.get('VERIF_REPO', '/repo')
+HARNESS = os.environ.get('VERIF_HARNESS', os.path.join(ROOT, 'harness'))
 GUARD = 'samlang_verif'
 NCPU = os.cpu_count() or 4
 
@@ -35,6 +40,7 @@ FORBIDDEN = re.compile(
 def sh(cmd, timeout=600, cwd=None, env=None, input=None):
     e = dict(os.environ)
     e['CARGO_NET_OFFLINE'] = 'true'
+    e.setdefault('SAMLANG_STD_DIR', os.path.join(REPO, 'std'))
     if env:
         e.update(env)
     try:
@@ -73,7 +79,7 @@ def build_harness(profile='debug'):
         return _built[profile]
     lock = os.path.join(HARNESS, 'Cargo.lock')
     if not os.path.exists(lock):
-        sh('cp /repo/Cargo.lock ' + lock)
+        sh('cp %s/Cargo.lock %s' % (REPO, lock))
     args = 'cargo build --offline' + (' --release' if profile == 'release' else '')
     tdir = os.path.join(HARNESS, 'target')
     rc, out = sh(args, timeout=1500, cwd=HARNESS,
@@ -292,8 +298,8 @@ class Check:
 
     # --- verdict
     def finish(self):
-        os.makedirs(os.path.join(ROOT, 'replay'), exist_ok=True)
-        os.makedirs(os.path.join(ROOT, 'evidence'), exist_ok=True)
+        os.makedirs(os.path.join(OUT_ROOT, 'replay'), exist_ok=True)
+        os.makedirs(os.path.join(OUT_ROOT, 'evidence'), exist_ok=True)
         lines = []
         for k in self.known:
             if k['status'] == 'open' and self.known_hits.get(k['id']):
@@ -304,7 +310,7 @@ class Check:
         def write_replay(obj):
             blob = json.dumps(obj, sort_keys=True, default=str)
             h = hashlib.sha1(blob.encode()).hexdigest()[:12]
-            path = os.path.join(ROOT, 'replay', '%s-%s.json' % (self.pid, h))
+            path = os.path.join(OUT_ROOT, 'replay', '%s-%s.json' % (self.pid, h))
             with open(path, 'w') as f:
                 json.dump(obj, f, indent=1, default=str)
             return path
@@ -357,7 +363,7 @@ class Check:
             'violations': nviol,
         }
         ev['coverage'].update(self.extra_cov)
-        with open(os.path.join(ROOT, 'evidence', self.pid + '.json'), 'w') as f:
+        with open(os.path.join(OUT_ROOT, 'evidence', self.pid + '.json'), 'w') as f:
             json.dump(ev, f, indent=1, default=str)
         for ln in lines:
             print(ln)
